@@ -480,14 +480,16 @@ class Ctx:
         return ok, out
 
     def coq_failing(self, name, header, case_terms, check_fn, chunk=250,
-                    timeout=900):
+                    timeout=900, case_type=None):
         """Evaluate `check_fn : case -> bool` on every term inside Coq;
         return indices (into case_terms) where it is false; None on error."""
         jobs = []
         for k in range(0, len(case_terms), chunk):
             part = case_terms[k:k + chunk]
             body = header + "\n"
-            body += "Definition cases := [\n  " + ";\n  ".join(part) + "\n].\n"
+            ann = f" : list ({case_type})" if case_type else ""
+            body += (f"Definition cases{ann} := [\n  " + ";\n  ".join(part)
+                     + "\n].\n")
             body += ("Definition failing := map fst (filter (fun p => negb "
                      f"({check_fn} (snd p))) (combine (seq 0 (length cases))"
                      " cases)).\n")
